@@ -79,7 +79,7 @@ def run(chk):
                 open(p, "wb").write(make_xml(rng, j))
             else:
                 p = os.path.join(ind, "c%d.info" % j)
-                open(p, "wb").write(pipeline.make_info(rng, j, ["src/a.c", "b.c", "com/x/Top.java", "lib/é.rs"], agree_starts=True, branch_only=0.2))
+                open(p, "wb").write(pipeline.make_info(rng, j, ["src/a.c", "src/./a.c", "b.c", "./b.c", "com/x/Top.java", "lib/é.rs", "lib//é.rs"], agree_starts=True, branch_only=0.2))
             files.append(p)
         branch = rng.random() < 0.7
         depth = rng.choice([1, 2, 3])
